@@ -30,6 +30,7 @@ pub fn rust_ty(t: &Ty) -> String {
         Vec(a) => format!("Vec<{}>", rust_ty(a)),
         Array(a, n) => format!("[{}; {}]", rust_ty(a), n),
         HashSet(a) => format!("std::collections::HashSet<{}>", rust_ty(a)),
+        LinkedList(a) => format!("std::collections::LinkedList<{}>", rust_ty(a)),
         BTreeMap(a, b) => format!("std::collections::BTreeMap<{}, {}>", rust_ty(a), rust_ty(b)),
         Box(a) => format!("Box<{}>", rust_ty(a)),
         Adt(d) => d.name.clone(),
@@ -70,6 +71,7 @@ pub fn rust_val(t: &Ty, v: &Val) -> String {
         (Array(a, _), Val::Bytes(b)) if **a == U8 => format!("[{}]", b.iter().map(|x| format!("{x}u8")).collect::<std::vec::Vec<_>>().join(", ")),
         (Vec(a), Val::Seq(xs)) => format!("Vec::<{}>::from([{}])", rust_ty(a), xs.iter().map(|x| rust_val(a, x)).collect::<std::vec::Vec<_>>().join(", ")),
         (Array(a, _), Val::Seq(xs)) => format!("[{}]", xs.iter().map(|x| rust_val(a, x)).collect::<std::vec::Vec<_>>().join(", ")),
+        (LinkedList(a), Val::Seq(xs)) => format!("std::collections::LinkedList::<{}>::from_iter([{}])", rust_ty(a), xs.iter().map(|x| rust_val(a, x)).collect::<std::vec::Vec<_>>().join(", ")),
         (HashSet(a), Val::Seq(xs)) => format!("std::collections::HashSet::<{}>::from_iter([{}])", rust_ty(a), xs.iter().map(|x| rust_val(a, x)).collect::<std::vec::Vec<_>>().join(", ")),
         (BTreeMap(k, w), Val::Map(ps)) => format!(
             "std::collections::BTreeMap::<{}, {}>::from_iter([{}])",
